@@ -1087,6 +1087,11 @@ def _process_add_event_tick(
     for step_name, step_config in state.config.steps.items():
         wait_conditions = state.workers[step_name].collected_waiters
         for wait_condition in wait_conditions:
+            if wait_condition.resolved_event is not None or wait_condition.timed_out:
+                # Already answered (or timed out): the waiting step has been
+                # replayed for it and deletes the waiter when it completes. A
+                # further matching event must not answer the same wait again.
+                continue
             is_match = type(tick.event) is wait_condition.waiting_for_event
             is_match = is_match and all(
                 getattr(tick.event, k, None) == v
